@@ -97,6 +97,20 @@ func iterationCounts(h *ssa.BasicBlock, ev func(ssa.Instruction) int) map[int][]
 				continue
 			}
 			if s == h {
+				// a path that comes back only to leave (`more = false; continue`): not an iteration that
+				// stays in the loop
+				if len(h.Succs) == 2 {
+					nn := it.s.nd.step(i)
+					stays := false
+					for j, s2 := range h.Succs {
+						if body[s2] && nn.feasibleEdge(j) {
+							stays = true
+						}
+					}
+					if !stays {
+						continue
+					}
+				}
 				if _, ok := res[n]; !ok {
 					res[n] = append(append([]*ssa.BasicBlock{}, it.path...), h)
 				}
